@@ -42,36 +42,102 @@ def block_after(body, start):
     raise F.FactError("unbalanced block")
 
 
-def inline_private(t, body, rel, depth=2):
-    """body with every TAIL call `Self::helper(args)` of a private associated function of the same file replaced by the
-    helper's body, as if the helper were written in place: the parameters are renamed to the argument identifiers
-    (arguments must be plain locals, possibly borrowed: `x`, `&x`, `&mut x`; anything else is left alone and the feature
-    recognisers will then fail as before).  Only a tail call is inlined, so a `return` inside the helper means the same
-    thing after inlining."""
-    if depth == 0:
-        return body
-    m = re.search(r"(?:Self|CharacterCategory)::(\w+)\(([^()]*)\)\s*$", body.rstrip())
-    if not m:
-        return body
-    name, args = m.group(1), [a.strip() for a in m.group(2).split(",") if a.strip()]
+KEYWORDS = set("as break const continue else false fn for if impl in let loop match mut ref return self static true while where".split())
+
+
+def _helper(t, name, args, rel):
+    """(body of the private associated function `name` with its parameters renamed to the argument locals, its local names)
+    or None when the call cannot be read as code written in place"""
     d = re.search(r"(?<![\w])(pub(?:\([^)]*\))?\s+)?fn\s+%s\s*\(([^()]*)\)" % re.escape(name), t)
     if not d or d.group(1):
-        return body        # not in this file, or public: it is its own unit
+        return None        # not in this file, or public: it is its own unit
     params = [x.strip() for x in d.group(2).split(",") if x.strip()]
     if len(params) != len(args) or any(re.match(r"(&\s*(mut\s+)?)?self$", x) for x in params):
-        return body
+        return None
     pairs = []
     for prm, a in zip(params, args):
         pm = re.match(r"(?:mut\s+)?(\w+)\s*:", prm)
         am = re.fullmatch(r"(?:&\s*(?:mut\s+)?)?(\w+)", a)
         if not pm or not am:
-            return body
+            return None
         pairs.append((pm.group(1), am.group(1)))
     hb = F.fn_body(t, name, rel)
-    # simultaneous whole-word rename parameter -> argument
     mp = dict(pairs)
-    hb = re.sub(r"(?<![A-Za-z0-9_\.])(%s)(?![A-Za-z0-9_])" % "|".join(re.escape(k) for k in mp), lambda x: mp[x.group(1)], hb) if mp else hb
-    return inline_private(t, body[:m.start()] + hb, rel, depth - 1)
+    # names the helper uses for itself (not fields / methods / paths / macros)
+    own = set(x for x in re.findall(r"(?<![A-Za-z0-9_\.])([a-z_][a-z_0-9]*)(?![A-Za-z0-9_]|\s*\(|::|!)", hb)
+              if x not in KEYWORDS and x not in mp and x != "_")
+    if any(a in own for p_, a in pairs if a != p_):
+        return None        # an argument local would be captured by a local of the helper
+    # simultaneous whole-word rename parameter -> argument
+    if mp:
+        hb = re.sub(r"(?<![A-Za-z0-9_\.])(%s)(?![A-Za-z0-9_])" % "|".join(re.escape(k) for k in mp), lambda x: mp[x.group(1)], hb)
+    return hb, own
+
+
+def _word(name, text):
+    return re.search(r"(?<![A-Za-z0-9_\.])%s(?![A-Za-z0-9_])" % re.escape(name), text) is not None
+
+
+def inline_lets(t, body, rel, limit=8):
+    """`let <pattern> = Self::helper(args);` of a private associated function of the same file read as the helper's body
+    written in place (pure code motion into a helper).  Conditions, all needed for the in-place reading to mean the same:
+    the helper has no `return` and no `?` (they would leave another function), it ends in a tail expression that is a
+    local or a tuple of locals matching the pattern, those locals are renamed to the pattern's names, and no other local
+    of the helper is mentioned after the call (it could shadow a local of the caller)."""
+    pos = 0
+    for _ in range(limit):
+        m = re.compile(r"let\s+(\((?:\s*(?:mut\s+)?\w+\s*,?)+\)|(?:mut\s+)?\w+)\s*=\s*(?:Self|CharacterCategory)::(\w+)\(([^()]*)\)\s*;").search(body, pos)
+        if not m:
+            return body
+        new = _inline_one(t, body, m, rel)
+        if new is None:
+            pos = m.end()      # left as a call: it is its own unit (collect_boundaries is read separately)
+        else:
+            body = new         # the in-place text is scanned again from the same position (a helper may call a helper)
+    return body
+
+
+def _inline_one(t, body, m, rel):
+    pat = [x for x in re.findall(r"\w+", m.group(1)) if x != "mut"]
+    h = _helper(t, m.group(2), [a.strip() for a in m.group(3).split(",") if a.strip()], rel)
+    if h is None:
+        return None
+    hb, own = h
+    if re.search(r"\breturn\b|\?", hb):
+        return None
+    hb = hb.rstrip()
+    mt = re.search(r"(?:^|[;}])\s*(\((?:\s*\w+\s*,?)+\)|\w+)$", hb)
+    if not mt:
+        return None
+    res = re.findall(r"\w+", mt.group(1))
+    if len(res) != len(pat) or len(set(res)) != len(res) or not all(r in own for r in res):
+        return None
+    stmts = hb[:mt.start(1)]
+    after = body[m.end():]
+    if any(_word(x, after) for x in own if x not in res):
+        return None
+    ren_map = dict(zip(res, pat))
+    if any(v in own and v not in res for v in ren_map.values()):
+        return None
+    stmts = re.sub(r"(?<![A-Za-z0-9_\.])(%s)(?![A-Za-z0-9_])" % "|".join(re.escape(k) for k in ren_map), lambda x: ren_map[x.group(1)], stmts)
+    return body[:m.start()] + stmts + after
+
+
+def inline_private(t, body, rel, depth=2):
+    """body with a TAIL call `Self::helper(args)` of a private associated function of the same file replaced by the
+    helper's body, as if the helper were written in place: the parameters are renamed to the argument identifiers
+    (arguments must be plain locals, possibly borrowed: `x`, `&x`, `&mut x`; anything else is left alone and the feature
+    recognisers will then fail as before).  Only a tail call is inlined here, so a `return` inside the helper means the
+    same thing after inlining; `let .. = Self::helper(..);` is read by inline_lets."""
+    if depth == 0:
+        return body
+    m = re.search(r"(?:Self|CharacterCategory)::(\w+)\(([^()]*)\)\s*$", body.rstrip())
+    if not m:
+        return body
+    h = _helper(t, m.group(1), [a.strip() for a in m.group(2).split(",") if a.strip()], rel)
+    if h is None:
+        return body
+    return inline_private(t, body[:m.start()] + h[0], rel, depth - 1)
 
 
 def gen():
@@ -97,7 +163,7 @@ def gen():
     out.append("Definition boundary_fields : list string := [%s].\n" % "; ".join(q(x) for x in ins))
 
     # ---- compile
-    b = inline_private(t, F.fn_body(t, "compile", CC), CC)
+    b = inline_lets(t, inline_private(t, F.fn_body(t, "compile", CC), CC), CC)
     w = ws(b)
     if not re.search(r"if\w+\.is_empty\(\)\{returnCharacterCategory::default\(\);\}", w):
         raise F.FactError("compile: empty definition list no longer gives the default table")
